@@ -20,10 +20,10 @@ import (
 
 // documents that fail with containers open / succeed after filling scratch state
 var (
-	openFail   = []byte(`{"a\tb":[1,{"k":"esc\"aped é","n":123456789012345678901234567890.5e-3,"x":[[1e5,`)
-	closeFail  = []byte(`[[1,2}`)
+	openFail   = []byte("{\"a\\tb\":[1,\n\n  {\"k\":\"esc\\\"aped é\",\n\"n\":123456789012345678901234567890.5e-3,\"x\":[[1e5,")
+	closeFail  = []byte("[\n[1,\n   2}")
 	deepOK     = []byte(`{"s":"tab\there","big":12345678901234567890123,"f":-0.000125e+7,"a":[[],{},[null,true,false]]}`)
-	senOpenErr = []byte(`{a:[1 {k:"x\ty" n:1e5 x:[[`)
+	senOpenErr = []byte("{a:[1\n\n {k:\"x\\ty\"\n n:1e5 x:[[")
 )
 
 type nullHandler struct{}
